@@ -119,6 +119,7 @@ pub fn draw_cfg(profile: &str, thorough: bool, rng: &mut Rng) -> RunCfg {
         sync_diff_pct: *rng.pick(&[0, 50, 100]),
         misroute_pct: 0,
         echo_suppress: rng.chance(30),
+        undo_walk: 0,
     };
     match profile {
         "gap" => {
@@ -242,6 +243,14 @@ pub fn draw_cfg(profile: &str, thorough: bool, rng: &mut Rng) -> RunCfg {
             );
         }
         "undo" => {
+            if rng.chance(50) {
+                // walk mode: build a history of captured steps, then walk it down and up
+                cfg.undo_walk = rng.range(3, 8) as u32;
+                gen.append_pct = 40;
+                gen.wide_del = true;
+                gen.recent_pct = 50;
+                gen.nest_pct = *rng.pick(&[10, 25, 40]);
+            }
             gen.subdoc_pct = 0;
             gen.embed_pct = 0;
             gen.rich_any = false;
@@ -400,6 +409,36 @@ impl World {
         if weights.iter().all(|x| *x == 0) {
             return Ok(false);
         }
+        if self.cfg.profile == "undo" && self.cfg.undo_walk > 0 {
+            // walk mode: phase 1 builds captured steps on the editor (a clock jump starts a new
+            // step), phase 2 walks the history down and up with undo/redo
+            let sp = |k: &str, a: Vec<u64>| Ev::Special { n: 0, k: k.into(), a, s: vec![] };
+            let ev = if (self.stats.txns as u32) < self.cfg.undo_walk {
+                if self.walk_need_clock {
+                    self.walk_need_clock = false;
+                    sp("clock", vec![1000 + self.rng.below(1000)])
+                } else {
+                    self.walk_need_clock = self.rng.chance(75);
+                    let count = self.rng.range(1, self.cfg.max_ops_per_txn as u64) as u32;
+                    return self.gen_txn(eid, 0, Some("user".into()), count);
+                }
+            } else {
+                match self.rng.below(20) {
+                    0..=10 => sp("undo", vec![]),
+                    11..=17 => sp("redo", vec![]),
+                    18 => sp("gc", vec![]),
+                    _ => {
+                        let count = self.rng.range(1, 2) as u32;
+                        return self.gen_txn(eid, 0, Some("user".into()), count);
+                    }
+                }
+            };
+            let ev = if let Ev::Special { k, .. } = &ev { if k == "gc" { Ev::Gc { n: 0 } } else { ev } } else { ev };
+            let tev = TraceEv { eid, ev };
+            self.trace.push(tev.clone());
+            self.exec(&tev)?;
+            return Ok(true);
+        }
         let k = self.rng.weighted(&weights);
         let ev = match k {
             0 => {
@@ -409,21 +448,7 @@ impl World {
                 }
                 let count = self.rng.range(1, self.cfg.max_ops_per_txn as u64) as u32;
                 let origin = crate::monitors::draw_origin(self, n);
-                // generated and executed op by op
-                self.cur_eid = eid;
-                self.cur_k = 0;
-                self.stats.events += 1;
-                self.now += 1;
-                self.cur_ops.clear();
-                self.cur_txn = Some((n, origin.clone()));
-                let r = self.run_txn(n, origin.clone(), None, count);
-                self.cur_txn = None;
-                let ops = std::mem::take(&mut self.cur_ops);
-                self.trace.push(TraceEv {
-                    eid,
-                    ev: Ev::Txn { n, origin, ops },
-                });
-                return self.soften(r.map(|_| ()), eid).map(|_| true);
+                return self.gen_txn(eid, n, origin, count);
             }
             1 => {
                 let i = self.choose_delivery(&elig);
@@ -477,6 +502,24 @@ impl World {
         self.trace.push(tev.clone());
         self.exec(&tev)?;
         Ok(true)
+    }
+
+    /// a generated local transaction: ops are drawn and executed one by one
+    fn gen_txn(&mut self, eid: u32, n: usize, origin: Option<String>, count: u32) -> Result<bool, Violation> {
+        self.cur_eid = eid;
+        self.cur_k = 0;
+        self.stats.events += 1;
+        self.now += 1;
+        self.cur_ops.clear();
+        self.cur_txn = Some((n, origin.clone()));
+        let r = self.run_txn(n, origin.clone(), None, count);
+        self.cur_txn = None;
+        let ops = std::mem::take(&mut self.cur_ops);
+        self.trace.push(TraceEv {
+            eid,
+            ev: Ev::Txn { n, origin, ops },
+        });
+        self.soften(r.map(|_| ()), eid).map(|_| true)
     }
 
     fn choose_delivery(&mut self, elig: &[usize]) -> usize {
